@@ -6,7 +6,8 @@
 /* ghost state (unconstrained at entry: dfcc havocs globals) */
 size_t g_k, g_wm_i, g_len, g_o;
 uint8_t *g_in, *g_out;
-uint32_t g_av0, w_int_calls, w_cap, g_int_ret;
+uint32_t g_av0, w_int_calls, w_cap, g_int_ret, w_cc_calls, w_cc_len, w_run, w_runbits, w_run_bad, w_trl_calls, w_trl_crc;
+uint32_t w_pcalls, w_i1_off, w_i1_avail, w_i1_total, w_i2_avail, w_i2_total, w_i2_tmp, w_a1, w_a2, w_t2, w_s1, w_s2;
 int g_lb_present;
 uint32_t w_nblk, w_base, w_bn, w_hdr, w_bc, w_av;
 uint64_t w_bits;
@@ -194,3 +195,23 @@ h_write_constant_compressed(void)
         write_constant_compressed_stateless(stream, repeated_length);
         VCANARY();
 }
+
+void
+h_deflate_int(void)
+{
+        struct isal_zstream *stream;
+        uint8_t *start_in;
+        isal_deflate_int(stream, start_in);
+        VCANARY();
+}
+
+void
+h_detect_repeated(void)
+{
+        uint8_t *in;
+        uint32_t length;
+        (void) detect_repeated_char_length(in, length);
+        VCANARY();
+}
+
+STREAM_HARNESS(deflate_int_stateless, (void) isal_deflate_int_stateless(stream))
